@@ -375,11 +375,19 @@ func runC02(c *ctx) {
 		mux.Handle("/camli/upload", handlers.CreateBatchUploadHandler(cfgSto{sto, &blobserver.Config{Writable: true, Readable: true, URLBase: "http://x"}}))
 		mux.Handle("/camli/", handlers.CreatePutUploadHandler(sto))
 		srv := httptest.NewServer(mux)
-		for i := 0; i < c.n(40, 300); i++ {
+		// the size limit through HTTP as well: one byte below, exactly at, one byte above (on the memory leaf)
+		var forced []int
+		if be.Kind == "leaf" && be.Leaf == "memory" {
+			forced = []int{max - 1, max, max + 1}
+		}
+		for i := 0; i < c.n(40, 300)+len(forced); i++ {
 			o := mkOffer([]int{0, 1, 17, 300}[c.rng.Intn(4)], hashKinds[c.rng.Intn(len(hashKinds))], variants[c.rng.Intn(len(variants))])
+			if i < len(forced) {
+				o = mkOffer(forced[i], "sha224", "exact")
+			}
 			name := o.refStr
 			parses := true
-			if c.rng.Intn(8) == 0 {
+			if i >= len(forced) && c.rng.Intn(8) == 0 {
 				name, parses = "not-a-ref", false
 			}
 			var body io.Reader = bytes.NewReader(o.stream)
@@ -413,17 +421,20 @@ func runC02(c *ctx) {
 			c.count("put_status", fmt.Sprint(resp.StatusCode))
 			c.rep.SpecChecks++
 			_, want := refOf(o.kind, o.stream)
-			valid := parses && o.kind != "unknown" && want == o.refStr
+			valid := parses && o.kind != "unknown" && want == o.refStr && len(o.stream) <= max
 			if (resp.StatusCode == 204) != valid || (valid && (after != len(o.stream) || !bytes.Equal(fetched, o.stream) || !enumerated || !notified)) || (!valid && (after != before || notified)) {
 				c.violation(idx, "c02-put", fmt.Sprintf("%s: PUT %s (%s %s): status %d after %d notified %v", be.describe(), name, o.kind, o.variant, resp.StatusCode, after, notified), nil)
 			}
 		}
-		for i := 0; i < c.n(25, 200); i++ {
+		for i := 0; i < c.n(25, 200)+len(forced); i++ {
 			var offers []offer
 			var partsQ []string
 			var buf bytes.Buffer
 			mw := multipart.NewWriter(&buf)
 			nparts := 1 + c.rng.Intn(4)
+			if i < len(forced) {
+				nparts = 1
+			}
 			var names []string
 			for j := 0; j < nparts; j++ {
 				v := variants[c.rng.Intn(len(variants))]
@@ -431,8 +442,11 @@ func runC02(c *ctx) {
 					v = "exact"
 				}
 				o := mkOffer([]int{17, 30, 300}[c.rng.Intn(3)], hashKinds[c.rng.Intn(len(hashKinds))], v)
+				if i < len(forced) {
+					o = mkOffer(forced[i], "sha224", "exact")
+				}
 				name, parses := o.refStr, true
-				if c.rng.Intn(8) == 0 {
+				if i >= len(forced) && c.rng.Intn(8) == 0 {
 					name, parses = "camliversion", false
 				}
 				offers = append(offers, o)
